@@ -1,0 +1,8 @@
+//! Verification facade (cargo feature `verif`): thin, add-only wrappers that let an external
+//! harness reach crate-private entry points and read the constants the code actually uses.
+//! Nothing in here is compiled unless the feature is enabled.
+
+/// Constants of the wire protocol as the code defines them.
+pub fn wire_constants() -> (u8, usize) {
+    (crate::tcp::PROTOCOL_VERSION, crate::tcp::MAX_MESSAGE_SIZE)
+}
